@@ -887,7 +887,14 @@ func checkMalformed(rec *stats.Recorder, c malformedCase) (string, string) {
 			rec.Known(kfOuterType, kf.What(kfOuterType), c)
 			return "", ""
 		}
-		if o.Status != http.StatusBadRequest {
+		if c.Class == "e" || c.Class == "f" {
+			// broken envelopes beyond the four kinds the property lists (no / wrong boundary, truncation, garbage, unknown or
+			// missing outer content type): the property's general rule applies - rejected as a client error without reaching
+			// resource code; which 4xx is the implementation's choice
+			if o.Status < 400 || o.Status >= 500 {
+				return name, failf("malformed tunnelled request answered with status %d, want a 4xx; response body %+q%s", o.Status, clipS(o.Body), desc)
+			}
+		} else if o.Status != http.StatusBadRequest {
 			return name, failf("malformed tunnelled request answered with status %d, want 400; response body %+q%s", o.Status, clipS(o.Body), desc)
 		}
 	}
